@@ -138,6 +138,34 @@ def main(tier):
             else:
                 run.nontriv(("act2", src))
                 run.count("acting-stream.calls", len(calls))
+        # ---------- (2d) groups: one entry per capture group of the pattern, in order, "" for a group that took no part in the match
+        gp = [("E(\\d+)?(k\\d+)?(!)?", ["Ek3", "E12", "E12k3!", "E!", "E", "E7!", "Ek9!"]), ("#(a)?(b)?(c)?#", ["##", "#a#", "#b#", "#c#", "#ac#", "#abc#"]),
+              ("Z(?:(x)|(y))(\\d*)", ["Zx", "Zy", "Zx12", "Zy3"]), ("Q(\\d+)(?:-(\\d+))?", ["Q5", "Q5-7"])]
+        gl, gm = [], []
+        for gpat, terms in gp:
+            rx = re.compile(gpat)
+            for term in terms:
+                for tpl in ("{T}", "1+{T}", "[{T},{T}]", "abs({T})"):
+                    src = tpl.replace("{T}", term)
+                    mm = rx.fullmatch(term)
+                    want = "\x1f".join([mm.group(0)] + [(g if g is not None else "") for g in mm.groups()])
+                    gl.append(f"custom -,L30000 {1:032x} re:{hx(gpat)} {hx(src)}")
+                    gm.append((gpat, term, src, want))
+        go_ = go_child(line_timeout=20).run(gl)
+        for (gpat, term, src, want), o in zip(gm, go_):
+            run.evaluations += 1
+            run.count("groups.cases")
+            m = re.search(r" calls=(\S+)", o)
+            calls = unhx(m.group(1)).decode("utf-8", "replace").split("\x1e") if m and m.group(1) != "-" else []
+            pre = "re:" + gpat.replace("\\\\", "\\") + "|"
+            got = [(c[len(pre):].rsplit("|", 1)[0] if c.startswith(pre) else c) for c in calls]
+            if not o.startswith("ok ") or not calls:
+                run.violation("custom-term-not-accepted-as-operand", {"source": src, "registered": gpat, "implementation": o[:400]})
+            elif any(x != want for x in got):
+                run.violation("handler-received-wrong-text-or-groups", {"source": src, "registered": gpat, "groups_received": [x.split("\x1f") for x in got],
+                                                                        "groups_expected": want.split("\x1f")})
+            else:
+                run.nontriv(("groups", gpat, src))
         # ---------- (2c) a handler that fails (error / nil result): the evaluation ends in an error, in every operand position
         failing = [(tpl.replace("{T}", f"E{r.randint(0, 99)}"), tpl, kind) for tpl in ctx_templates for kind in ("reerr", "renil")]
         outf = go_child(line_timeout=20).run([f"custom -,L30000 {1:032x} {kind}:{hx(pat)} {hx(src)}" for src, tpl, kind in failing])
